@@ -449,6 +449,8 @@ def execute(sc, mutant=None):
             dev.services[sv.PORT_MEM].faults = {}
             dev.faults.f = {}
             dev.flush_held()
+            reenter.clear()                    # the probe requests are plain ones
+            dreenter.clear()
 
             def oks():
                 return sum(1 for e in w.log if (e.get('e') == 'note' and e['k'] in ('read_ok', 'write_ok')) or
@@ -585,7 +587,7 @@ def gen_deck_scenario(rng, tier, kind):
     requests to the other memories, under the same faults"""
     ops = [('dq',)]
     wl = [rng.choice([0, 1, 24, 25, 26, 50, 51]) for _ in range(rng.randint(1, 3))]
-    dws = [('dw', 0, a, ln, rng.choice(['cb', 'cb', 'sync', 'prog']) if ln else rng.choice(['cb', 'sync']))
+    dws = [('dw', 0, a, ln, rng.choice(['cb', 'cb', 'sync', 'prog']))
            for (a, ln) in _place_writes(rng, wl, limit=150)]
     dws = [op + ((1,) if op[4] == 'sync' else ()) for op in dws]
     drs = [('dr', rng.choice([0, 1]), rng.randrange(0, 60), rng.choice([0, 1, 19, 20, 21, 40, 41]), rng.choice(['cb', 'cb', 'sync']))
@@ -702,7 +704,7 @@ def deck_scenarios():
     add([W, S, R, S], policy=('userlast', 0), sent_yield=True)
     add([R, W, S, ('dc', 0, 'bl'), ('dc', 0, 'fw'), ('dc', 1, 'size'), ('dw', 2, 0, 4, 'cb'), S])
     for ln in (0, 1, 25, 26, 50, 51):
-        add([('dw', 0, 3, ln, 'cb'), S, ('dw', 0, 70, ln, 'sync'), ('dw', 1, 9, ln, 'prog' if ln else 'cb'), S])
+        add([('dw', 0, 3, ln, 'cb'), S, ('dw', 0, 70, ln, 'sync'), ('dw', 1, 9, ln, 'prog'), S])
     for ln in (0, 1, 20, 21, 40, 41):
         add([('dr', 0, 3, ln, 'cb'), S, ('dr', 1, 70, ln, 'sync'), S])
     # the query is memory messages 1..13; W is 14..16 when it comes first, R is 3 messages
@@ -940,8 +942,8 @@ def _old_families():
 
 
 def _sub_general(seed, tier):
-    return (reenter_scenarios()[::3] + _old_families()[::3] +
-            [gen_scenario(random.Random(seed + 1 + i), tier, KINDS[i % 6]) for i in range(100)])
+    return (reenter_scenarios()[::4] + _old_families()[::4] +
+            [gen_scenario(random.Random(seed + 1 + i), tier, KINDS[i % 6]) for i in range(70)])
 
 
 # name -> (in-memory mutant, the scenarios it is run on)
@@ -1013,6 +1015,9 @@ def signature(t, clause, at, sc):
                         th[0].startswith(('_Incoming', 'user', 'simdriver', 'Thread:'))})
         if '_call_all_failed_callbacks' in sites and f.get('drop_by') == 'sender':
             return 'Deadlock/link-error-from-sender-under-write-lock'
+        if any(op[0] == 'dw' and op[3] == 0 and op[4] == 'prog' for op in (sc.get('ops', []) if sc else [])):
+            return 'Deadlock/zero-length-write-with-progress-callback'
+
         return 'Deadlock/' + '+'.join(sites)
     if clause in ('Wedged', 'ThreadDied', 'NotServedAfterwards', 'Incomplete'):
         tb = ' '.join(d.get('dead', []))
@@ -1287,8 +1292,8 @@ def main(tier, seed, replay=None):
     # 3. code -> spec
     scs = systematic_scenarios()
     nsys = len(scs)
-    nrand = 900 if tier == 'quick' else 15000
-    ndeck = 300 if tier == 'quick' else 5000
+    nrand = 800 if tier == 'quick' else 14000
+    ndeck = 200 if tier == 'quick' else 4000
     for i in range(nrand):
         scs.append(gen_scenario(rng, tier, KINDS[i % len(KINDS)]))
     for i in range(ndeck):
@@ -1312,15 +1317,17 @@ def main(tier, seed, replay=None):
                 'the deck client families; random part: %d plain + %d deck; distinct = distinct observable histories' % (nsys, nrand, ndeck))
     out.samples = [{'scenario': scs[i], 'events': traces[i]['ev'][:10]} for i in (0, 70, len(scs) - 1)]
 
-    # 4. sensitivity (after the violations have been recorded: a self-test never masks a verdict)
-    known = common.known_findings('C06')
+    # 4. sensitivity (after the violations have been recorded: a self-test never masks a verdict).
+    # A mutant counts as rejected only by a trace whose signature is neither a known finding nor
+    # one that the tree under test produces by itself.
+    known = set(common.known_findings('C06')) | {signature(t, c, a, scs[t['id'] - 1]) for (t, c, a) in bad}
     for name in sorted(MUTANTS):
         sub = MUTANTS[name][1](seed, tier)
         mt = run_scenarios(sub, mutant=name)
         o2 = common.Outcome('C06', tier, seed)
         mbad = judge(o2, mt, 'mutant ' + name)
         mbad = [(t, c, a) for (t, c, a) in mbad if signature(t, c, a, sub[t['id'] - 1]) not in known]
-        out.sensitivity['mutant:' + name] = '%d of %d traces rejected beyond the known findings (%s)' % (
+        out.sensitivity['mutant:' + name] = '%d of %d traces rejected beyond the known findings and the tree\'s own (%s)' % (
             len(mbad), len(mt), ','.join(sorted({c for (_t, c, _a) in mbad}))[:120])
         if not mbad:
             raise common.MachineryError('monitor did not reject in-memory mutant %s' % name)
